@@ -68,6 +68,58 @@ func runC18(c *Ctx) {
 	c18R2(c)
 	c18R3(c, cfgFns, fields)
 	c18R4(c)
+	c18R5(c, cfgFns)
+}
+
+// ---------- R5: one base64 alphabet ----------
+
+// c18R5: the `auth` field is base64(username:password) in the standard alphabet
+// with padding (docker's format).  Encoder and decoder must agree, and agree
+// with docker: every base64 operation of the config package uses
+// base64.StdEncoding.  A different *Encoding on one side makes Get return an
+// error (or another credential) for entries written by Put or by docker.
+func c18R5(c *Ctx, fns []*ssa.Function) {
+	const R5 = "C18.R5.auth-encoding-agrees"
+	c.Expect(R5, 2)
+	for _, f := range fns {
+		n := map[string]int{}
+		for _, call := range Calls(f, func(nm string) bool { return strings.HasPrefix(nm, "(*encoding/base64.Encoding).") }) {
+			nm := CalleeName(call)
+			n[nm]++
+			key := FnName(f) + "|" + strings.TrimPrefix(nm, "(*encoding/base64.Encoding).")
+			if n[nm] > 1 {
+				key += fmt.Sprintf("#%d", n[nm])
+			}
+			which := ""
+			ok := true
+			rs := Roots(call.Common().Args[0])
+			if len(rs) == 0 {
+				ok = false
+			}
+			for _, r := range rs {
+				ld, isLoad := r.(*ssa.UnOp)
+				var g *ssa.Global
+				if isLoad && ld.Op == token.MUL {
+					g, _ = ld.X.(*ssa.Global)
+				}
+				if g == nil || g.Pkg == nil || g.Pkg.Pkg.Path() != "encoding/base64" {
+					ok, which = false, describe(r)
+					continue
+				}
+				if g.Name() != "StdEncoding" {
+					ok, which = false, "base64."+g.Name()
+				}
+			}
+			c.Check(R5, key, call.Pos(), ok, ifelse(ok, "uses base64.StdEncoding, like every other base64 operation of the package and like docker",
+				"uses "+which+" instead of base64.StdEncoding: encoder and decoder of the auth field (and docker's config format) no longer agree — credentials whose base64 contains '+', '/' or padding are not read back"))
+		}
+	}
+	// constructing a private alphabet is not the docker format either
+	for _, f := range fns {
+		for _, call := range CallsTo(f, "encoding/base64.NewEncoding", "(encoding/base64.Encoding).WithPadding", "(encoding/base64.Encoding).Strict") {
+			c.Violation(R5, FnName(f)+"|custom-encoding", call.Pos(), "a custom base64 encoding is constructed in the config package: the auth field must be standard base64 with padding")
+		}
+	}
 }
 
 // ---------- R1 ----------
@@ -1563,6 +1615,13 @@ var c18Mutants = []Mutant{
 	{Name: "copy-through-anonymous-wrapper", File: "registry/remote/credentials/internal/ioutil/ioutil.go",
 		Old: "\tif _, err := io.Copy(tempFile, content); err != nil {", New: "\tif _, err := io.Copy(struct{ io.Writer }{tempFile}, content); err != nil {",
 		Expect: "C18.R1.atomic-replace|~/registry/remote/credentials/internal/ioutil.Ingest|copy-destination-is-temp-file"},
+	// R5
+	{Name: "decoder-url-alphabet", File: "registry/remote/credentials/internal/config/config.go",
+		Old: "base64.StdEncoding.DecodeString(authStr)", New: "base64.URLEncoding.DecodeString(authStr)",
+		Expect: "C18.R5.auth-encoding-agrees|~/registry/remote/credentials/internal/config.decodeAuth|DecodeString"},
+	{Name: "encoder-without-padding", File: "registry/remote/credentials/internal/config/config.go",
+		Old: "base64.StdEncoding.EncodeToString(", New: "base64.RawStdEncoding.EncodeToString(",
+		Expect: "C18.R5.auth-encoding-agrees|~/registry/remote/credentials/internal/config.encodeAuth|EncodeToString"},
 	// R4
 	{Name: "put-empty-credential-deletes", File: "registry/remote/credentials/file_store.go",
 		Old: "\n\treturn fs.config.PutCredential(serverAddress, cred)", New: "\tif cred == auth.EmptyCredential {\n\t\treturn fs.config.DeleteCredential(serverAddress)\n\t}\n\treturn fs.config.PutCredential(serverAddress, cred)",
